@@ -28,9 +28,17 @@ FailsFn(o) == Check("function:" \o o.f, o.got = o.expect /\ (o.got = "throw" \/ 
               \cup Check("derivative:" \o o.f, o.got = "throw" \/ o.dgot = "throw" \/ o.dclass \in {"match", "na"})
               \cup Check("derivative:" \o o.f, o.got = "throw" \/ o.dgoty = "throw" \/ o.dclassy \in {"match", "na"})
 CondExpected(o) == IF o.wrap = "2*(" THEN 2 * o.inner ELSE IF o.wrap = "1+(" THEN 1 + o.inner ELSE o.inner
+\* parameters and external functions: direct value, value after resolveDependencies(), value of the function obtained by turning
+\* p into a variable (set to the value of p), resolved or not; when the formula does not name p the rewriting may be refused
+Exactly(r, n) == r.got = "value" /\ r.tight /\ r.q = n
+Rewritten(o, r) == IF o.direct THEN Exactly(r, o.n0) ELSE (r.got = "throw" \/ Exactly(r, o.n0))
+FailsDeps(o) == Check("dependencies:direct", Exactly(o.direct_, o.n0)) \cup Check("dependencies:resolved", Exactly(o.resolved, o.n0))
+                \cup Check("dependencies:parameter-as-variable", Rewritten(o, o.asvar))
+                \cup Check("dependencies:parameter-as-variable-then-resolved", Rewritten(o, o.asvarres))
 FailsCond(o) == Check("cxx-formula:conditional", CxxOK(o, CondExpected(o))) \cup UNION {Check("conditional:" \o k, o[k].got = "value" /\ o[k].tight /\ o[k].q = CondExpected(o)) : k \in {"min", "full"}}
 Fails(o) == IF o.kind = "arith" THEN FailsArith(o)
             ELSE IF o.kind = "cond" THEN FailsCond(o)
+            ELSE IF o.kind = "deps" THEN FailsDeps(o)
             ELSE IF o.kind = "reject" THEN Check("accepts-malformed", o.got = "throw")
             ELSE IF o.kind = "silent" THEN Check("silent-different-parse", o.got = "throw" \/ (o.tight /\ o.q = o.num))
             ELSE FailsFn(o)
